@@ -101,6 +101,20 @@ def run(ctx):
             rterms.append(f'({m}%nat, {n}%nat, [' + '; '.join(Ql(Fraction(float(v))) for v in s) + f'], {rr}%nat, {Ql(Fraction(1, 10 ** 10))}, {n - utils.quat_null_space(An, "right").shape[1]}%nat)')
         else: ctx.cov['discarded'] += 1
         ctx.count(('rank-threshold', m, n), True)
+    # an explicit threshold is the threshold in force, 0 included (tol = 0 counts every strictly positive singular value); rank is monotone in tol
+    for (m, n), sv in (((3, 3), [Fraction(1), Fraction(1, 2), Fraction(1, 10 ** 18)]), ((4, 4), [Fraction(2), Fraction(2), Fraction(1, 10 ** 17), Fraction(3, 10 ** 18)]),
+                       ((5, 3), [Fraction(3), Fraction(1, 10 ** 9), Fraction(1, 10 ** 20)]), ((3, 4), [Fraction(1), Fraction(0), Fraction(0)]), ((3, 3), [Fraction(3), Fraction(2), Fraction(1)])):
+        A, _, _ = spectral_problem(rng, m, n, sv); An = qx.to_np(A)
+        _, s, _ = qsvd.classical_qsvd_full(An); prev = None
+        for t in (0.0, 0, 1e-30, 1e-12, 1e-8, 1e-3, 10.0):
+            inp = {'shape': [m, n], 'singular_values': [str(x) for x in sv], 'tol': t}
+            try: rr = utils.rank(An, tol=t)
+            except Exception as e: viol('C11:rank:explicit-tol:raises', f'rank raised {e!r} for tol = {t!r}', inp); continue
+            want = int(sum(1 for v in s if v > t))
+            if rr != want: viol('C11:rank:explicit-tol' + (':zero' if t == 0 else ''), f'rank(A, tol={t!r}) = {rr} is not the number of singular values above the threshold in force ({want}; computed values {[float(v) for v in s]})', inp, rr, want)
+            if prev is not None and rr > prev: viol('C11:rank:explicit-tol:monotone', 'rank increases when the threshold grows', inp, rr, prev)
+            prev = rr
+            ctx.count(('rank-tol', m, n, str(sv), str(t)), True)
     # determinants
     for n in range(1, (4 if ctx.quick() else 6)):
         for rep in range(3):
